@@ -312,6 +312,12 @@ func scenarioC12(c *hlib.RunCtx) *hlib.Violation {
 				switch t.Draw(10) {
 				case 7:
 					p.Counters["crash/crash\nmain.main:+1,+0x1"] = 1 // a stack-shaped key among the counters
+					for k := range p.Counters {
+						if !strings.Contains(k, "\n") {
+							p.Counters[k+"\nsecret/path:12"] = 1 // an approved counter's name followed by a newline and more
+							break
+						}
+					}
 				case 8:
 					p.Stacks["\nmain.main:+1,+0x1"] = 1 // a stack whose first line is empty
 				case 9:
